@@ -171,20 +171,21 @@ impl Cond {
     pub fn calc(&mut self, v: &HashSet<Box<[u8]>>) {
         match self.r#type {
             CondType::And => {
-                if self.result.is_empty() {
+                if !self.calculated {
                     self.result = v.clone();
                 } else {
                     self.result = self.result.intersection(v).cloned().collect::<HashSet<_>>()
                 }
             }
             CondType::Or => {
-                if self.result.is_empty() {
+                if !self.calculated {
                     self.result = v.clone();
                 } else {
                     self.result = self.result.union(v).cloned().collect::<HashSet<_>>()
                 }
             }
         }
+        self.calculated = true;
     }
 }
 
